@@ -301,6 +301,10 @@ def before_after_to_box(element, pseudo_type, state, style_for,
         compute_bookmark_label(
             element, box, style['bookmark_label'], counter_values,
             target_collector, counter_style)
+
+    # The parent only processes the text of its inline-level children.
+    process_whitespace(box)
+    process_text_transform(box)
     return [box]
 
 
